@@ -166,6 +166,27 @@ def access(ctx):
                 ec = kwarg(c, 'error_code')
                 R.check(ec is not None and h.name and norm(ec) == f'{h.name}.error_code', rule, f'{SRV}.{name} | refusal answered with the gate\'s error @{len(R.obs)}', 'Error Response carries error.error_code',
                         f'a refused access is answered with {text(ec)} instead of the error raised by the permission gate', p.loc(c))
+    # a refusal raised by the gate inside a task-wrapped handler must be handled there:
+    # nothing above a task can answer for it, the client would get no reply at all
+    from .c10 import _is_task_wrapped
+    for name in sorted((READERS | WRITERS) & set(srv.methods)):
+        m = srv.methods[name]
+        if not _is_task_wrapped(m):
+            continue
+        for gi, c in enumerate([c_ for c_ in calls_in(m) if call_attr(c_) in ('read_value', 'write_value')]):
+            handled = False
+            a = getattr(c, '_parent', None)
+            prev = c
+            while a is not None and a is not m:
+                if isinstance(a, ast.Try) and any(prev is s_ or any(prev is x for x in ast.walk(s_)) for s_ in a.body):
+                    for h in a.handlers:
+                        ts = h.type.elts if isinstance(h.type, ast.Tuple) else ([h.type] if h.type is not None else [])
+                        names = {text(t).split('.')[-1] for t in ts} or {'<bare>'}
+                        if names & {'ATT_Error', 'ProtocolError', 'Exception', 'BaseException', '<bare>'}:
+                            handled = True
+                prev, a = a, getattr(a, '_parent', None)
+            R.check(handled, rule, f'{SRV}.{name} | refusal handled in the task #{gi + 1}', 'the gate call is inside try/except ATT_Error of the task-wrapped handler',
+                    'a refusal raised by the permission gate escapes the task-wrapped handler: the request is never answered (the client times out instead of receiving the error or a non-match)', p.loc(c))
     missing = (READERS | WRITERS) - set(srv.methods)
     for mname in sorted(missing):
         R.bad(rule, f'{SRV}.{mname}', f'anchor missing: {SRV}.{mname}')
